@@ -91,3 +91,78 @@ func withHelpers(fn *ssa.Function, depth int) []*ssa.Function {
 	}
 	return out
 }
+
+// connShutdownHelper recognises, in ServerConn.run, a call to an unexported
+// helper that (1) closes the socket on every path except the false edge of one
+// of its bool parameters, (2) then waits for the reader on every path, where
+// (3) the call site binds that parameter to "the error is not the HTTP-upgrade
+// marker" (or to true). Such a call stands for "close the socket unless it was
+// handed to the tunnel, then join the reader". Returns the call, or nil.
+func connShutdownHelper(run *ssa.Function) *ssa.Call {
+	isWait := func(in ssa.Instruction) bool {
+		ci, ok := in.(*ssa.Call)
+		return ok && isFn(ci.Call.StaticCallee(), "", "serverConnReader.wait")
+	}
+	isClose := func(in ssa.Instruction) bool { return invokeOn(in, "Close", ".nconn") }
+	for _, b := range run.Blocks {
+		for _, in := range b.Instrs {
+			call, ok := in.(*ssa.Call)
+			if !ok {
+				continue
+			}
+			h := call.Call.StaticCallee()
+			if h == nil || h.Blocks == nil || h.Pkg != run.Pkg || token.IsExported(h.Name()) {
+				continue
+			}
+			// (2) wait on every path
+			if miss, _, _ := core.PathAvoiding(h, nil, core.IsReturn, isWait); miss {
+				continue
+			}
+			// (1) close before wait, except through the false edge of a bool parameter
+			param := -1
+			bad := false
+			miss, _, _ := core.PathAvoidingE(h, nil, isWait, isClose, func(x, y *ssa.BasicBlock) bool {
+				iff, ok := x.Instrs[len(x.Instrs)-1].(*ssa.If)
+				if !ok || len(x.Succs) != 2 {
+					return false
+				}
+				if prm, ok := iff.Cond.(*ssa.Parameter); ok && y == x.Succs[1] {
+					for i, q := range h.Params {
+						if q == prm {
+							if param >= 0 && param != i {
+								bad = true
+							}
+							param = i
+						}
+					}
+					return true
+				}
+				return false
+			})
+			if miss || bad || param < 0 || param >= len(call.Call.Args) {
+				continue
+			}
+			// (3) the argument
+			arg := call.Call.Args[param]
+			okArg := false
+			if k, isC := arg.(*ssa.Const); isC {
+				if v, isB := boolConst(k); isB && v {
+					okArg = true
+				}
+			}
+			if u, ok := arg.(*ssa.UnOp); ok && u.Op == token.NOT {
+				if ci, ok := u.X.(*ssa.Call); ok && core.CalleeObjName(ci) == "errors.Is" && len(ci.Call.Args) == 2 {
+					if g, ok := ci.Call.Args[1].(*ssa.UnOp); ok {
+						if gl, ok := g.X.(*ssa.Global); ok && gl.Name() == "errHTTPUpgraded" {
+							okArg = true
+						}
+					}
+				}
+			}
+			if okArg {
+				return call
+			}
+		}
+	}
+	return nil
+}
